@@ -271,7 +271,7 @@ func TestC19(t *testing.T) {
 	if os_only_regress() {
 		return
 	}
-	search(t, rec, "roundtrip", budget(50, 3200), 0, func(rt *rapid.T) {
+	search(t, rec, "roundtrip", budget(50, 16000), 0, func(rt *rapid.T) {
 		b, panicMsg := buildHistory(rt, true)
 		defer b.c.Close()
 		if panicMsg != "" {
